@@ -510,6 +510,11 @@ def run(F, res, tier):
             c = callee(t) or callee_def(t) or ""
             if c.endswith("PartialEq>::eq") and "Visibility" in c or ("Visibility" in str((t.get("fn") or {}).get("full", "")) and c.endswith("eq")):
                 vis = True
+    if not vis:
+        # `if *visibility != Visibility::Public { continue }` on a fieldless enum with a derived PartialEq is a comparison of discriminants
+        for f in fri:
+            if any("Visibility" in str(l.get("ty")) for l in f.d["locals"]) and any((s_.get("rv") or {}).get("k") == "discr" for _b, _i, s_ in f.stmts()):
+                vis = True
     res.ob("S4", "imports-public-only", "an unqualified import only brings in public declarations of the other module (filter on Visibility::Public)",
            vis, where=ri.loc(), how="Visibility comparison in resolve_import: %s" % vis)
     from rules import c18 as _c18v
